@@ -7,6 +7,7 @@ from ..gen import ops as go
 from ..gen import schemas
 from ..gen import steps as gs
 from ..gen.docs import docgen
+from ..ref import marks as rm
 from ..ref import plain as P
 from ..ref import splice as S
 from ..ref import validate as V
@@ -108,8 +109,31 @@ def generate(R: Draw, tier: str) -> dict:
         # a node that already carries marks, and a mark that interacts with them (exclusion / same type)
         from ..ref import resolve as RR
 
+        pairs = [(m1, m2) for m1 in rs.mark_names for m2 in rs.mark_names if m1 != m2 and rs.excludes(m2, m1)]
+        hosts = [
+            (k, s_, par)
+            for k, s_, par, _i, _d in RR.all_nodes(RR.N(doc, rs))
+            if not k.is_text and par is not None and rs.inline[k.t]
+        ]
+        if pairs and hosts and R.bool(0.4):
+            # construct it: an inline node carrying m1 (and perhaps a bystander), and a node mark of ANOTHER type
+            # that excludes m1 - the new mark takes m1's place, undo has to bring m1 back
+            from ..gen import mutate as mu
+
+            k, pos, par = R.choice(hosts)
+            ok = [(m1, m2) for m1, m2 in pairs if rs.allows_mark(par.t, m1) and rs.allows_mark(par.t, m2)]
+            if ok:
+                m1, m2 = R.choice(ok)
+                ms = rm.ref_add(rs, g.mark(R, m1), g.mark_set(R, par.t, 0.3))
+                if any(x[0] == m1 for x in ms):
+                    path = next((p_ for p_ in mu.paths(doc) if mu.get_at(doc, p_) is k.p), None)
+                    if path is not None:
+                        doc = mu.replace_at(doc, path, lambda n_: {**n_, "m": ms})
+                        node = P.build(lib, doc)
+                        if not V.node_problems(rs, doc):
+                            desc = {"k": "addNodeMark", "pos": pos, "mark": g.mark(R, m2)}
         marked = [(k, s_) for k, s_, _par, _i, _d in RR.all_nodes(RR.N(doc, rs)) if k.p["m"] and not k.is_text]
-        if marked:
+        if marked and desc is None:
             k, pos = R.choice(marked)
             present = [m[0] for m in k.p["m"]]
             inter = [m for m in rs.mark_names if m in present or any(rs.excludes(m, x) or rs.excludes(x, m) for x in present)]
